@@ -13,7 +13,9 @@ def check(run):
              "schedules x at most one injected step failure for 2-task batches (encode; decode plain / end-of-stream / "
              "skipped-first / skipped-last), random schedules for 3..5 tasks. Checked directly: one owner of the shared "
              "stream at a time, owners in id order, no deadlock, failure reported by the enclosing Write/Read. Each "
-             "serialized trace is replayed through the extracted Coq step function. Non-trivial = distinct trace with >= 2 tasks.")
+             "serialized trace is replayed through the extracted Coq step function. Free-running: a corrupted block in every position of an "
+             "8-block stream x jobs 1..4 x caller buffers 100..65536: the task failure must be returned by a Read call (not only when "
+             "the failing batch is the first one that call starts) and nothing hangs. Non-trivial = distinct trace with >= 2 tasks.")
     run.coverage["traces_validated_against_impl"] = run.coverage.get("correspondence_cases", 0)
     run.coverage["dfs_exhaustive_for_2_tasks"] = bool(stats.get("dfs_exhaustive"))
 
